@@ -179,7 +179,9 @@ def header_lines(rng, fields, noise=False):
 
 
 def write_header(tmp, idx, lines):
-    path = os.path.join(tmp, "t%d_pte.h" % idx)
+    # a small pool of paths, each rewritten with table after table: the field table in force is the one the file at the
+    # path holds now, whatever an earlier decode read from the same path
+    path = os.path.join(tmp, "t%d_pte.h" % (idx % 3))
     with open(path, "w") as f:
         for ln in lines:
             f.write(ln + "\n")
